@@ -4,5 +4,5 @@
 From Coq Require Import Extraction ExtrOcamlBasic.
 From Poster Require Import Model.Sim.
 Extraction Language OCaml.
-Extraction "model.ml" run_script view_connack view_connect_error view_auth view_ack view_suback
+Extraction "model.ml" run_script step sys_init view_connack view_connect_error view_auth view_ack view_suback
   view_disconnected view_publish dec_packet venc vdec.
